@@ -617,64 +617,65 @@ func (server *SugarDB) evictKeysWithExpiredTTL(ctx context.Context) error {
 		return nil
 	}
 
-	server.keysWithExpiry.rwMutex.RLock()
-
 	database := ctx.Value("Database").(int)
 
-	// Sample size should be the configured sample size, or the size of the keys with expiry,
+	// Sample size should be the configured sample size, or the number of keys with expiry in this database,
 	// whichever one is smaller.
+	server.keysWithExpiry.rwMutex.RLock()
+	volatileKeys := server.keysWithExpiry.keys[database]
 	sampleSize := int(server.config.EvictionSample)
-	if len(server.keysWithExpiry.keys[database]) < sampleSize {
-		sampleSize = len(server.keysWithExpiry.keys)
+	if len(volatileKeys) < sampleSize {
+		sampleSize = len(volatileKeys)
 	}
+	// Sample distinct keys at random.
 	keys := make([]string, sampleSize)
+	for i, idx := range rand.Perm(len(volatileKeys))[:sampleSize] {
+		keys[i] = volatileKeys[idx]
+	}
+	server.keysWithExpiry.rwMutex.RUnlock()
+
+	// If sampleSize is 0, there's nothing to do.
+	if sampleSize == 0 {
+		return nil
+	}
 
 	deletedCount := 0
 	thresholdPercentage := 20
 
-	var idx int
-	var key string
-	for i := 0; i < len(keys); i++ {
-		for {
-			// Retry retrieval of a random key until we find a key that is not already in the list of sampled keys.
-			idx = rand.Intn(len(server.keysWithExpiry.keys))
-			key = server.keysWithExpiry.keys[database][idx]
-			if !slices.Contains(keys, key) {
-				keys[i] = key
-				break
+	// Loop through the keys and delete the ones that are expired. Keys whose expiry time has not
+	// passed yet (or that have no expiry time any more) are left alone.
+	err := func() error {
+		server.storeLock.Lock()
+		defer server.storeLock.Unlock()
+		for _, k := range keys {
+			entry, ok := server.store[database][k]
+			if !ok || entry.ExpireAt == (time.Time{}) || !entry.ExpireAt.Before(server.clock.Now()) {
+				continue
+			}
+			// Delete the expired key
+			deletedCount += 1
+			if !server.isInCluster() {
+				if err := server.deleteKey(ctx, k); err != nil {
+					return fmt.Errorf("evictKeysWithExpiredTTL -> standalone delete: %+v", err)
+				}
+			} else if server.isInCluster() && server.raft.IsRaftLeader() {
+				if err := server.raftApplyDeleteKey(ctx, k); err != nil {
+					return fmt.Errorf("evictKeysWithExpiredTTL -> cluster delete: %+v", err)
+				}
 			}
 		}
-	}
-	server.keysWithExpiry.rwMutex.RUnlock()
-
-	// Loop through the keys and delete them if they're expired
-	server.storeLock.Lock()
-	defer server.storeLock.Unlock()
-	for _, k := range keys {
-		// Delete the expired key
-		deletedCount += 1
-		if !server.isInCluster() {
-			if err := server.deleteKey(ctx, k); err != nil {
-				return fmt.Errorf("evictKeysWithExpiredTTL -> standalone delete: %+v", err)
-			}
-		} else if server.isInCluster() && server.raft.IsRaftLeader() {
-			if err := server.raftApplyDeleteKey(ctx, k); err != nil {
-				return fmt.Errorf("evictKeysWithExpiredTTL -> cluster delete: %+v", err)
-			}
-		}
-	}
-
-	// If sampleSize is 0, there's no need to calculate deleted percentage.
-	if sampleSize == 0 {
 		return nil
+	}()
+	if err != nil {
+		return err
 	}
 
 	log.Printf("%d keys sampled, %d keys deleted\n", sampleSize, deletedCount)
 
 	// If the deleted percentage is over 20% of the sample size, execute the function again immediately.
-	if (deletedCount/sampleSize)*100 >= thresholdPercentage {
+	if (deletedCount*100)/sampleSize >= thresholdPercentage {
 		log.Printf("deletion ratio (%d percent) reached threshold (%d percent), sampling again\n",
-			(deletedCount/sampleSize)*100, thresholdPercentage)
+			(deletedCount*100)/sampleSize, thresholdPercentage)
 		return server.evictKeysWithExpiredTTL(ctx)
 	}
 
